@@ -537,7 +537,7 @@ fn c15(cx: &Ctx, quick: bool) {
     cx.class("display-pieces".into(), cnt.load(Ordering::Relaxed) + c2);
     // floats
     std::panic::set_hook(Box::new(|_| {}));
-    let (total, stride_note): (u64, &str) = if quick { (1 << 32, "quick tier: all 2^8 sign/exponent combinations... every 4099th bit pattern plus all exponents x 256 mantissas") } else { (1 << 32, "all 2^32 bit patterns") };
+    let (total, stride_note): (u64, &str) = if quick { (1 << 32, "quick tier: all 2^8 sign/exponent combinations... every 251st bit pattern plus all exponents x 256 mantissas") } else { (1 << 32, "all 2^32 bit patterns") };
     let cnt = AtomicU64::new(0);
     let complete = if quick {
         // all 512 sign/exponent values x 256 structured mantissas, plus a stride over everything
@@ -561,10 +561,10 @@ fn c15(cx: &Ctx, quick: bool) {
             }
         }
         cnt.fetch_add(c, Ordering::Relaxed);
-        par_ranges(cx, total / 4099, 1 << 12, |lo, hi| {
+        par_ranges(cx, total / 251, 1 << 14, |lo, hi| {
             let mut c = 0;
             for i in lo..hi {
-                let bits = (i * 4099) as u32;
+                let bits = (i * 251) as u32;
                 c += 1;
                 if !f32_ok(bits) {
                     cx.fail("f32/round-trip", format!("f32 bits {bits:#x} does not round-trip"), json!({"f32_bits": bits}));
@@ -1048,7 +1048,7 @@ fn c19(cx: &Ctx, quick: bool) {
     use arbitrary::Arbitrary;
     // strings
     let alpha = ['a', '"', '\\', '\n', '\u{1}', 'é', '€', '😀', '\u{2028}'];
-    let maxc = if quick { 4 } else { 5 };
+    let maxc = 5;
     let mut texts: Vec<String> = vec![String::new()];
     let mut cur = vec![String::new()];
     for _ in 0..maxc {
